@@ -58,18 +58,34 @@ def apply_contract(I, con, f, args, kwargs, bound_self, caller=None):
     self_obj = bindings.get("self")
     if con.self_spec is not None and isinstance(self_obj, SObj):
         spec = con.self_spec
+        inv_before = [_z(f) for _i, f in spec.invariant_formulas(I, self_obj)] if con.check_inv else []
         fields = spec.fields.keys() if con.modifies_ is None else [
             p.split(".", 1)[1] for p in con.modifies_ if p.startswith("self.")
         ]
         for fld in fields:
+            deep = fld.endswith(".*")
+            if deep:
+                fld = fld[:-2]
             if "." in fld:
                 raise Unsupported(f"nested frame path {fld}")
             ty = spec.fields.get(fld)
             if ty is None:
                 raise Unsupported(f"{con.qualname}: frame names unknown field {fld}")
-            self_obj.fields[fld] = ty.fresh(I, f"{short(con.qualname)}.{fld}'")
-        if con.check_inv:
-            spec.assume_invariants(I, self_obj)
+            new = ty.fresh(I, f"{short(con.qualname)}.{fld}'")
+            cur = self_obj.fields.get(fld)
+            if deep and type(cur).__name__ in ("SMap", "SColl") and type(new) is type(cur):
+                # contents change, the binding (object identity) does not
+                oid = cur.oid
+                for attr, val in vars(new).items():
+                    setattr(cur, attr, val)
+                cur.oid = oid
+            else:
+                self_obj.fields[fld] = new
+        if con.check_inv and inv_before:
+            # the callee preserves the class invariant *if it held at entry* (that is what its own
+            # verification shows); nothing is assumed when the caller calls it mid-update
+            inv_after = [_z(f) for _i, f in spec.invariant_formulas(I, self_obj)]
+            ctx.assume(z3.Implies(z3.And(inv_before), z3.And(inv_after)))
     result = None
     if con.returns_ is not None:
         result = con.returns_.fresh(I, f"{short(con.qualname)}.result")
@@ -82,8 +98,15 @@ def apply_contract(I, con, f, args, kwargs, bound_self, caller=None):
             continue
         if _mentions(lam, "fx"):
             continue
+        if any(n not in b2 and n != "old" for n in _params(lam)):
+            continue  # clause over a ghost parameter of the callee's own proof
         ctx.assume(_z(eval_clause(I, lam, b2, old_view=old_view)))
     return result
+
+
+def _params(lam):
+    code = lam.__code__
+    return code.co_varnames[: code.co_argcount + code.co_kwonlyargcount]
 
 
 def _mentions(lam, name):
